@@ -391,9 +391,10 @@ def _bar_model(sc, lines, evs, ended, done, dead_leaves):
 
     prev = None
     for e in evs:
+        if e.k == "Q" and e.a in dead:
+            return "skip", None         # a killed actor issued a request (wait or kill) in the scheduling round of its death, which the
+                                        # kernel drops: the statement is silent, and the harness bookkeeping no longer matches
         if e.k == "Q" and e.op == "B":
-            if e.a in dead:
-                return "skip", None     # a killed actor issued a request in the scheduling round of its death: the statement is silent
             x = _Arr(e.a, e.clock)
             pending[e.a] = (e.obj, x)
             seq[e.obj].append(x)
